@@ -561,9 +561,19 @@ def handle (sess : Sess) (rep : Report) (ln : Nat) (toks : List String) (obs : S
             | some slot => { v with refs := v.refs.modify slot fun r => { r with streamsCnt := r.streamsCnt + 1 } }
             | none => v
           | none => v
-        let mid := sess.mon.view.map fun v => bump v resA
+        -- the monitors judge the pair in the order in which they have the least to object (a monitor failure
+        -- must not come from the order the driver happened to feed the two picks in): a then b, or b then a,
+        -- the balancer events going to the pick that was told to wait if exactly one was
+        let countFails (o1 o2 : Op) (e1 e2 : List String) (mid : Option ImplView) : Nat :=
+          let (mon1, f1, _) := sess.mon.observe o1 e1 mid
+          let (_, f2, _) := mon1.observe o2 e2 (parseDigest obs)
+          f1.length + f2.length
         let (evsA, evsB) := if resB == "nosc" && resA != "nosc" then ([resA], implEvents ++ [resB]) else (implEvents ++ [resA], [resB])
-        let (mon, rep) := feed sess.mon rep (mk ca) (mk cb) evsA evsB mid
+        let midA := sess.mon.view.map fun v => bump v resA
+        let midB := sess.mon.view.map fun v => bump v resB
+        let abFirst := countFails (mk ca) (mk cb) evsA evsB midA ≤ countFails (mk cb) (mk ca) evsB evsA midB
+        let (mon, rep) := if abFirst then feed sess.mon rep (mk ca) (mk cb) evsA evsB midA
+                          else feed sess.mon rep (mk cb) (mk ca) evsB evsA midB
         let shown := match ab with | some (_, _, _, _, line) => line | none => "(model lost)"
         ({ sess with model := none, mon := mon },
          if sess.model.isSome then { rep.msg s!"DIVERGE line={ln} model={shown} impl={obs}" with diverged := rep.diverged + 1 } else rep)
